@@ -165,14 +165,32 @@ func JsonContainerReader(container map[string]interface{}) node.Node {
 		// part of the meta, that disqualifies that case and we move onto next case
 		// until one case aligns with data.  If no cases align then input in inconclusive
 		// i.e. non-discriminating and we should error out.
-		for _, kase := range choice.Cases() {
+		// a case is chosen when one of its definitions is in the data; a choice nested in the case
+		// counts when one of its own cases does.  cases are tried in the order of their names so
+		// that the answer does not depend on map iteration.
+		var caseHasData func(kase *meta.ChoiceCase) bool
+		caseHasData = func(kase *meta.ChoiceCase) bool {
 			for _, prop := range kase.DataDefinitions() {
+				if nested, isChoice := prop.(*meta.Choice); isChoice {
+					for _, ident := range nested.CaseIdents() {
+						if caseHasData(nested.Cases()[ident]) {
+							return true
+						}
+					}
+					continue
+				}
 				if _, found := fqkGet(prop, container); found {
-					return kase, nil
+					return true
 				}
 				// just because you didn't find a property doesnt
 				// mean it's invalid, it's only if you don't find any
 				// of the properties of a case
+			}
+			return false
+		}
+		for _, ident := range choice.CaseIdents() {
+			if kase := choice.Cases()[ident]; caseHasData(kase) {
+				return kase, nil
 			}
 		}
 		// just because you didn't find any properties of any cases doesn't
